@@ -28,15 +28,22 @@ class Scope:
         self.alloc, self.alloc0 = alloc, alloc0
         self.ghost = ghost or {}
         self.qdepth = 0
+        self.locals = {}  # names bound by quantifiers / predicate parameters (values, valid in any state)
 
-    def with_env(self, env, deeper=False):
+    def with_env(self, env, deeper=False, local=None):
         s = Scope(env, self.heap, self.old_heap, self.old_env, self.alloc, self.alloc0, self.ghost)
         s.qdepth = self.qdepth + (1 if deeper else 0)
+        s.locals = dict(self.locals)
+        if local:
+            s.locals.update(local)
         return s
 
     def as_old(self):
-        s = Scope(self.old_env, self.old_heap, self.old_heap, self.old_env, self.alloc0, self.alloc0, self.ghost)
+        env = dict(self.old_env)
+        env.update(self.locals)
+        s = Scope(env, self.old_heap, self.old_heap, self.old_env, self.alloc0, self.alloc0, self.ghost)
         s.qdepth = self.qdepth
+        s.locals = dict(self.locals)
         return s
 
 
@@ -296,7 +303,7 @@ def _call(node, sc):
             v, t = _bound_var(a.arg, ast.unparse(tn), sc.qdepth)
             env[a.arg] = v
             bvars += v.terms()
-        sc2 = sc.with_env(env, deeper=True)
+        sc2 = sc.with_env(env, deeper=True, local={a.arg: env[a.arg] for a in lam.args.args})
         body = sv_bool(lam.body, sc2)
         q = z3.ForAll if f.value.id == "forall" else z3.Exists
         pats = []
@@ -419,6 +426,10 @@ def _call(node, sc):
         d, ft = decl.find_field(x.t.e.cls, fname)
         arr = sc.heap.get(heapops.field_keys(d.short, fname, ft)[0], ft.sort())
         return Val(TSeq(ft), ops.seq_map_field(arr, x.v, ft.sort()))
+    if name in ("exp", "log"):
+        from .theory import zf
+
+        return Val(NUM, zf("Exp" if name == "exp" else "Log")(to_real(args[0])))
     if name == "pw":
         return Val(NUM, ops.power(to_real(args[0]), to_real(args[1])))
     if name == "abs":
@@ -467,7 +478,7 @@ def _call(node, sc):
         env = {}
         for (pn, pt), a in zip(p.params, args):
             env[pn] = coerce(a, pt) if not isinstance(pt, TRef) else a
-        return sv(p.node, sc.with_env(env))
+        return sv(p.node, sc.with_env(env, local=env))
     if name in decl.SPECFNS:
         return specfn_apply(name, args)
     raise Unsupported(f"spec: unknown function {name}")
